@@ -321,10 +321,40 @@ def _analyse(name, fmt, model, mk, user, tier, res):
             if len(res["samples"]) < 2:
                 res["samples"].append({"obligation": nm, "emitted": str(z3.simplify(kk))[:200], "verdict": "unsat"})
         elif rr == "sat":
-            _replay(p, tdir, res, s.model(), i, ref, key, nm, r, NEQ, y, eb)
+            # the generator prints quotients such as E_b/A as one double literal: identify rational constants
+            # *inside libm calls* with their nearest double on both sides and ask again (IEEE rounding of
+            # literals is outside the claim); only a `sat` that survives this is replayed
+            kk2, ref2 = snap_libm_constants(z3.simplify(kk)), snap_libm_constants(z3.simplify(ref))
+            rr2 = str(s.check(z3.And(kk2 != ref2, kk2 != kin))) if (not kk2.eq(z3.simplify(kk)) or not ref2.eq(z3.simplify(ref))) else "sat"
+            if rr2 == "unsat":
+                res["ok"].append(nm)
+                res["notes"].append(f"{nm}: equal after rounding constant arguments of libm calls to double")
+            else:
+                _replay(p, tdir, res, s.model(), i, ref, key, nm, r, NEQ, y, eb)
         else:
             res["unknown"].append((nm, "solver " + rr))
     res["solver_s"] += time.time() - t0
+
+
+def snap_libm_constants(t):
+    """replace rational constants that are direct arguments of uninterpreted functions by the nearest double"""
+    memo = {}
+
+    def go(e):
+        k = e.get_id()
+        if k in memo:
+            return memo[k]
+        if z3.is_app(e) and e.num_args():
+            ch = [go(c) for c in e.children()]
+            if e.decl().kind() == z3.Z3_OP_UNINTERPRETED:
+                ch = [z3.RealVal(str(Fraction(float(Fraction(c.numerator_as_long(), c.denominator_as_long()))))) if z3.is_rational_value(c) else c for c in ch]
+            out = e.decl()(*ch)
+        else:
+            out = e
+        memo[k] = out
+        return out
+
+    return go(t)
 
 
 def _replay(p, tdir, res, model, i, ref, key, nm, r, NEQ, ysyms, eb=None):
